@@ -841,6 +841,8 @@ func main() {
 	if r.Thorough() {
 		r.CasesProc("sweep", sweepN, ev.Opt{Bin: "shim", Procs: 14}, sweepCase)
 	}
+	r.CasesProc("timed", r.N(160, 3000), ev.Opt{Procs: 4, Workers: 8, AlwaysLog: true, MaxCaseSeconds: 120}, timedCase)
+	r.Require("timed_rounds", 2000)
 	nfree := r.N(6000, 120000)
 	r.CasesProc("free/race", nfree, ev.Opt{Bin: "race", Procs: 6, AlwaysLog: true}, freeCase)
 	r.CasesProc("free/jitter", nfree, ev.Opt{Bin: "shimrace", Procs: 6, AlwaysLog: true, Env: []string{"VERIF_JITTER=1"}}, freeCase)
